@@ -19,11 +19,11 @@ def check(tier, seed):
     plans = [
         dict(flavour="serial", label="serial-fly", args=["--mode", "fly", "--threads", 3, "--ops", 10, "--range", 12], total=10000 if q else 500000),
         dict(flavour="serial", label="serial-fly-4threads", args=["--mode", "fly", "--threads", 4, "--ops", 6, "--range", 5, "--budget", 8000000], total=5000 if q else 250000),
-        dict(flavour="free", label="free-fly", args=["--mode", "fly", "--threads", 8, "--ops", 400, "--range", 300, "--fixed"], total=400 if q else 20000, timeout=300),
-        dict(flavour="free", label="free-omp", args=["--mode", "omp", "--threads", 8, "--ops", 300, "--range", 400], total=600 if q else 30000, timeout=300),
-        dict(flavour="tsan", label="tsan-omp", args=["--mode", "omp", "--threads", 6, "--ops", 150, "--range", 200], total=120 if q else 6000, timeout=900),
-        dict(flavour="asan", label="asan-omp", args=["--mode", "omp", "--threads", 6, "--ops", 150, "--range", 200], total=200 if q else 10000, timeout=900),
-        dict(flavour="asan", label="asan-fly", args=["--mode", "fly", "--threads", 6, "--ops", 200, "--range", 100, "--fixed"], total=100 if q else 5000, timeout=900),
+        dict(flavour="free", label="free-fly", args=["--mode", "fly", "--threads", 8, "--ops", 400, "--range", 300, "--fixed"], total=400 if q else 20000, chunk=25, timeout=300),
+        dict(flavour="free", label="free-omp", args=["--mode", "omp", "--threads", 8, "--ops", 300, "--range", 400], total=600 if q else 30000, chunk=38, timeout=300),
+        dict(flavour="tsan", label="tsan-omp", args=["--mode", "omp", "--threads", 6, "--ops", 150, "--range", 200], total=120 if q else 6000, chunk=8, timeout=900),
+        dict(flavour="asan", label="asan-omp", args=["--mode", "omp", "--threads", 6, "--ops", 150, "--range", 200], total=200 if q else 10000, chunk=13, timeout=900),
+        dict(flavour="asan", label="asan-fly", args=["--mode", "fly", "--threads", 6, "--ops", 200, "--range", 100, "--fixed"], total=100 if q else 5000, chunk=7, timeout=900),
     ]
     res = run_ds("C31", "h_fly", tier, seed, plans, RULE)
     res.assumptions = ["SymbolTableImpl / RecordTable pick their lane from the OpenMP thread number, so they are exercised by real OpenMP threads only (no serial scheduler)",
